@@ -1,6 +1,6 @@
 """C02 - derivatives returned are the true derivatives of the shape (structural part)."""
 import ast
-from ..model import norm, AnalysisError, walk_no_nested, params_of
+from ..model import norm, AnalysisError, walk_no_nested, params_of, kwarg
 from ..poly import Poly, to_poly, NotPoly
 from .. import rules_axis as ra
 from .. import rules_layout as rl
@@ -50,6 +50,7 @@ def check(m, run):
         run.note('SK2', 'evaluators', 'SKEL drivers not available in this build')
     run.floor('AX6.table-order', 3, 'SKL writes in the two surface derivative evaluators')
     run.floor('RQ1.quotient-rule', 8, 'A4.2 (1 term) + A4.4 (3 terms) index sums and binomials')
+    tn2(m, run)
     run.floor('TN1.tangent-normal', 5, 'tangent u/v, normal operands, normalisation')
     run.floor('LY1.canonical-stride', 2, 'SurfaceEvaluator.derivatives and surface_deriv_cpts')
 
@@ -123,6 +124,44 @@ def tn1(m, run):
     dc = [n.value for n in walk_no_nested(fc.node) if isinstance(n, ast.Assign) and isinstance(n.value, ast.Call) and isinstance(n.value.func, ast.Attribute) and n.value.func.attr == 'derivatives']
     okc = bool(dc) and norm(dc[0].args[-1]) == '1' and any(norm(x).endswith('[1]') for x in ast.walk(fc.node) if isinstance(x, ast.Subscript))
     run.ob('TN1.tangent-normal', fc.key, okc, 'curve tangent is the first derivative ders[1]' if okc else 'curve tangent is not ders[1] of derivatives(u, 1)', site(fc))
+
+
+def tn2(m, run):
+    """the list variants are the map of the single-parameter variant over the parameter list (sibling agreement): they return, per
+    parameter, the result of X_single(obj, parameter, normalize).  A list variant that computes its vectors itself is only
+    checked for the clause that is visible in its shape: a cross product returned on the normalize path goes through vector_normalize."""
+    n = 0
+    for fi in sorted(m.functions_in('_operations'), key=lambda f: f.key):
+        if not fi.name.endswith('_single_list'):
+            continue
+        sib = fi.name[:-5]
+        ps = params_of(fi.node)
+        calls = [c for c in walk_no_nested(fi.node) if isinstance(c, ast.Call) and isinstance(c.func, ast.Name) and c.func.id == sib]
+        n += 1
+        if calls:
+            c = calls[0]
+            args = [norm(a) for a in c.args] + [norm(k.value) for k in c.keywords]
+            # the middle argument is bound by iterating the parameter list
+            itervars = set()
+            for x in walk_no_nested(fi.node):
+                if isinstance(x, ast.For) and norm(x.iter) == ps[1] and isinstance(x.target, ast.Name):
+                    itervars.add(x.target.id)
+                if isinstance(x, ast.comprehension) and norm(x.iter) == ps[1] and isinstance(x.target, ast.Name):
+                    itervars.add(x.target.id)
+            ok = len(args) == 3 and args[0] == ps[0] and args[2] == ps[2] and args[1] in itervars
+            run.ob('TN2.list-variant-maps-single', fi.key, ok, '%s(%s) for every parameter of %s' % (sib, ', '.join(args), ps[1]) if ok else
+                   'the list variant calls %s(%s): expected (%s, <each element of %s>, %s)' % (sib, ', '.join(args), ps[0], ps[1], ps[2]), site(fi, c))
+            continue
+        cross = [c for c in walk_no_nested(fi.node) if isinstance(c, ast.Call) and norm(c.func).endswith('vector_cross')]
+        nz = [c for c in walk_no_nested(fi.node) if isinstance(c, ast.Call) and norm(c.func).endswith('vector_normalize')]
+        if cross and not nz:
+            run.ob('TN2.list-variant-maps-single', fi.key, False,
+                   'the list variant does not evaluate %s per parameter and returns a cross product that is never passed through vector_normalize: with normalize=True '
+                   'the normal is not a unit vector (the single-parameter variant normalises)' % sib, site(fi, cross[0]))
+            continue
+        raise AnalysisError('%s: does not delegate to %s (unknown idiom)' % (fi.key, sib))
+    if n < 3:
+        raise AnalysisError('_operations: only %d list variants found' % n)
 
 
 # ---------------------------------------------------------------------------------------------- BC1
@@ -269,6 +308,49 @@ def rq1(m, run, fi, pdim):
     run.ob('RQ1.quotient-rule', fi.key + ' :: start value', oks, 'starts from A^(%s) = %s[%s]' % (', '.join(tgt), W, ']['.join(tgt)) if oks else 'accumulator does not start from the weighted derivative of the target order', site(fi))
     if n_terms < (1 if pdim == 1 else 3):
         raise AnalysisError('%s: only %d quotient-rule terms recognised' % (fi.key, n_terms))
+    # every sum of the quotient rule is a separate sum: between a consumption of an accumulator and its next accumulation the
+    # accumulator is re-initialised on every path (otherwise the terms of one (k, l, i) leak into the next)
+    from ..cfg import CFG
+    cfg = CFG(fi.node)
+    stmts = [n for n in walk_no_nested(fi.node) if isinstance(n, (ast.Assign, ast.AugAssign))]
+
+    def reads(n, x):
+        v = n.value
+        return any(isinstance(y, ast.Name) and y.id == x and isinstance(y.ctx, ast.Load) for y in ast.walk(v))
+
+    def written_name(n):
+        t = n.targets[0] if isinstance(n, ast.Assign) else n.target
+        whole = isinstance(t, ast.Name)
+        if isinstance(t, ast.Subscript) and isinstance(t.slice, ast.Slice) and isinstance(t.value, ast.Name):
+            t = t.value
+        return (t.id, whole) if isinstance(t, ast.Name) else (None, False)
+    names = {written_name(n)[0] for n in stmts} - {None, W, D}
+    n_acc = 0
+    for x in sorted(names):
+        accs_ = [n for n in stmts if written_name(n)[0] == x and (reads(n, x) or isinstance(n, ast.AugAssign))]
+        inits = [n for n in stmts if written_name(n) == (x, True) and not reads(n, x) and not isinstance(n, ast.AugAssign)]
+        uses = [n for n in stmts if reads(n, x) and n not in accs_]
+        if not accs_ or not inits or not uses:
+            continue
+        n_acc += 1
+        init_nodes = [cfg.of[n] for n in inits if n in cfg.of]
+        leak = None
+        for u in uses:
+            un = cfg.of.get(u)
+            if un is None:
+                continue
+            seen = set()
+            for sc_, lab in un.succ:
+                seen |= cfg.reach_from(sc_, skip_nodes=init_nodes)
+            for a in accs_:
+                if cfg.of.get(a) in seen:
+                    leak = (u, a)
+        run.ob('RQ1.sums-restart', '%s :: accumulator %s' % (fi.key, x), leak is None,
+               'every path from a consumption of `%s` to its next accumulation re-initialises it' % x if leak is None else
+               '`%s` is consumed at line %d and accumulated again at line %d without being re-initialised in between: the terms of one sum leak into the next'
+               % (x, leak[0].lineno, leak[1].lineno), site(fi, (leak[1] if leak else inits[0])))
+    if n_acc < (1 if pdim == 1 else 2):
+        raise AnalysisError('%s: only %d accumulators recognised' % (fi.key, n_acc))
 
 
 # ---------------------------------------------------------------------------------------------- A34
@@ -418,6 +500,36 @@ def hodographs(m, run):
     fs = m.func('operations.derivative_surface')
     calls = [c for c in walk_no_nested(fs.node) if isinstance(c, ast.Call) and norm(c.func).endswith('surface_deriv_cpts')]
     run.ob('HD1.hodograph-source', fs.key, len(calls) == 1, 'derivative surfaces come from surface_deriv_cpts', site(fs))
+    # every derivative shape is parametrised like its input: a shape that receives (a slice of) the input's knot vector is a deep copy of
+    # the input or is constructed with the input's normalisation setting; a default-constructed shape would re-normalise the knots to
+    # [0, 1] and no longer give the derivative at the input's parameters
+    n_h = 0
+    for f in (fi, fs):
+        prm = params_of(f.node)[0]
+        created = {}
+        for n in walk_no_nested(f.node):
+            if isinstance(n, ast.Assign) and len(n.targets) == 1 and isinstance(n.targets[0], ast.Name) and isinstance(n.value, ast.Call):
+                created.setdefault(n.targets[0].id, []).append(n)
+        holders = {}
+        for n in walk_no_nested(f.node):
+            if isinstance(n, ast.Assign) and len(n.targets) == 1 and isinstance(n.targets[0], ast.Attribute) and n.targets[0].attr.startswith('knotvector') \
+                    and isinstance(n.targets[0].value, ast.Name):
+                holders.setdefault(n.targets[0].value.id, n)
+        for who, at in sorted(holders.items()):
+            ctor = created.get(who, [])
+            if len(ctor) != 1:
+                raise AnalysisError('%s: creation of `%s` not found' % (f.key, who))
+            c = ctor[0].value
+            is_copy = norm(c.func) in ('copy.deepcopy', 'deepcopy') and len(c.args) == 1 and norm(c.args[0]) == prm
+            kw = kwarg(c, 'normalize_kv')
+            keeps = kw is not None and prm in {x.id for x in ast.walk(kw) if isinstance(x, ast.Name)}
+            n_h += 1
+            run.ob('HD2.hodograph-keeps-parametrisation', '%s :: %s' % (f.key, who), is_copy or keeps,
+                   '`%s` is %s' % (who, 'a deep copy of the input' if is_copy else 'constructed with the input\'s normalize_kv') if (is_copy or keeps) else
+                   '`%s = %s` creates a shape with the default normalize_kv=True and then stores the input\'s knots in it: for an input built with normalize_kv=False '
+                   'the derivative shape is re-parametrised onto [0, 1]' % (who, norm(c)[:40]), site(f, ctor[0]))
+    if n_h < 4:
+        raise AnalysisError('hodographs: only %d derivative shapes recognised' % n_h)
     # degrees of the hodographs: S_u has degree (p-1, q), S_v (p, q-1), S_uv (p-1, q-1); knot vectors drop one end knot in the differentiated direction
     sc = ra.scope_of(fs)
     ra.axk_keyword_suffix(m, run, [fs])
